@@ -1,0 +1,41 @@
+//go:build verif
+
+// Contracts for the deductive verifier in /verif (comment-only; compiled only with -tags verif).
+
+package http
+
+// The witness's HTTP face (C19): an update is handed to the witness exactly as received; a refusal
+// for staleness or inconsistency (FailedPrecondition) is answered 409 Conflict together with the STH
+// the witness holds; every other refusal is an error reply that carries no STH; success returns the
+// cosigned STH.
+//@ func (*Server).update
+//@ props C19
+//@ may panic
+//@ site json.Unmarshal#1 as ju
+//@ site Update#1 as up
+//@ site status.Code#1 as sc
+//@ site WriteHeader#1 as wh
+//@ site Write#1 as wr
+//@ requires s != nil && s.w != nil && s.w.db != nil && w != nil && r != nil
+//@ requires [a witness as witness.New builds it: every configured log has a usable key] forall k string :: has(s.w.Logs, k) ==> validKey(s.w.Logs[k].PubKey)
+//@ ensures [an-undecodable-request-never-reaches-the-witness] ju.called && ju.res != nil ==> !up.called && !wr.called
+//@ ensures [a-stale-or-inconsistent-update-is-answered-409-with-the-held-sth] up.called && up.res1 != nil && sc.res == 9 ==> wh.called && wh.statusCode == 409 && wr.called && wr.arg0 == up.res0
+//@ ensures [every-other-refusal-carries-no-sth] up.called && up.res1 != nil && sc.res != 9 ==> !wr.called && !wh.called
+//@ ensures [an-accepted-update-returns-the-cosigned-sth] up.called && up.res1 == nil ==> wr.called && wr.arg0 == up.res0 && !wh.called
+//@ at up assert [the-witness-sees-the-request-as-received] up.nextRaw == after(ju, req.STH) && up.pf == after(ju, req.Proof)
+//@ at sc assert [classifies-the-witnesss-own-error] sc.err == up.res1
+
+//@ func httpForCode
+//@ props C19
+//@ pure
+//@ ensures [not-found-404-conflict-409-else-500] (c == 5 ==> result == 404) && (c == 9 ==> result == 409) && (c != 5 && c != 9 ==> result == 500)
+
+//@ func (*Server).getSTH
+//@ props C19
+//@ may panic
+//@ site GetSTH#1 as g
+//@ site Write#1 as wr
+//@ requires s != nil && s.w != nil && s.w.db != nil && w != nil && r != nil
+//@ requires forall k string :: has(s.w.Logs, k) ==> validKey(s.w.Logs[k].PubKey)
+//@ ensures [a-failed-lookup-returns-no-sth] g.called && g.res1 != nil ==> !wr.called
+//@ ensures [otherwise-exactly-what-the-witness-holds-and-cosigned] g.called && g.res1 == nil ==> wr.called && wr.arg0 == g.res0
